@@ -4,6 +4,7 @@ use crate::report::Cfg;
 use crate::Case;
 
 pub mod trees;
+pub mod vectors;
 
 pub fn cases(cfg: &Cfg) -> Vec<Case> {
     match cfg.prop.as_str() {
@@ -11,6 +12,9 @@ pub fn cases(cfg: &Cfg) -> Vec<Case> {
         "C01" => trees::cases_c01(cfg),
         "C02" => trees::cases_c02(cfg),
         "C03" => trees::cases_c03(cfg),
+        "C05" => vectors::cases_c05(cfg),
+        "C06" => vectors::cases_c06(cfg),
+        "C07" => vectors::cases_c07(cfg),
         other => {
             eprintln!("unknown property {}", other);
             std::process::exit(64);
